@@ -363,7 +363,7 @@ func c25GenStats(rt *rapid.T) map[string]int64 {
 		m["Duration"] = int64(rapid.IntRange(1, int(time.Second)).Draw(rt, "duration"))
 	}
 	if c25U(rt, 4, "fr") == 0 {
-		m["FlushReason"] = int64(rapid.IntRange(1, 3).Draw(rt, "flushreason"))
+		m["FlushReason"] = int64(c25Pick(rt, []zoekt.FlushReason{zoekt.FlushReasonTimerExpired, zoekt.FlushReasonFinalFlush, zoekt.FlushReasonMaxSize}, "flushreason"))
 	}
 	return m
 }
